@@ -153,7 +153,7 @@ func specProbeID(u *udpDriver, ttl uint8) uint16 {
 //@ requires[pre.past]     forall(k, 0, 65536, u.sentProbes[k].sendTime <= now())
 //@ ensures[C06.once]      ret0 == nil ==> !old(has(u.sentProbes, specProbeID(u, ttl))) && has(u.sentProbes, specProbeID(u, ttl)) && u.sentProbes[specProbeID(u, ttl)].ttl == ttl && u.sentProbes[specProbeID(u, ttl)].sendTime != 0
 // the probe is registered (matchable by the receiver) before it is on the wire: a reply can never overtake its own bookkeeping
-//@ before Sink.WriteTo assert[C02+C05.send.registered] has(u.sentProbes, specProbeID(u, ttl)) && u.sentProbes[specProbeID(u, ttl)].ttl == ttl && u.sentProbes[specProbeID(u, ttl)].sendTime != 0
+//@ before Sink.WriteTo assert[C02+C05+C06.send.registered] has(u.sentProbes, specProbeID(u, ttl)) && u.sentProbes[specProbeID(u, ttl)].ttl == ttl && u.sentProbes[specProbeID(u, ttl)].sendTime != 0
 //@ ensures[C06.others]    forall(k, 0, 65536, k != int(specProbeID(u, ttl)) ==> u.sentProbes[k] == old(u.sentProbes[k]) && has(u.sentProbes, k) == old(has(u.sentProbes, k)))
 //@ ensures[C05.stamp]     ret0 == nil ==> wrN == old(wrN)+1 && u.sentProbes[specProbeID(u, ttl)].sendTime <= wrClock && u.sentProbes[specProbeID(u, ttl)].sendTime >= old(now())
 //@ ensures[C05.past]      forall(k, 0, 65536, u.sentProbes[k].sendTime <= now())
